@@ -73,7 +73,7 @@ class Variants(object):
 
 
 class SimFelicaStandard(Variants):
-    def __init__(self, systems, ic_code=0x01, idm=bytes.fromhex("01fe0a0b0c0d0e0f"), commands=(0, 2, 4, 6, 0x0A, 0x0C),
+    def __init__(self, systems, ic_code=0x01, idm=bytes.fromhex("0114b34a0c0d0e0f"), commands=(0, 2, 4, 6, 0x0A, 0x0C),
                  key_version=0x0100, mut=None, silent_from=None, pmm_tail=bytes.fromhex("4b024f4993ff")):
         Variants.__init__(self, mut, silent_from)
         self.systems = list(systems)
@@ -175,7 +175,7 @@ class SimFelicaStandard(Variants):
                         p += 3
             except IndexError:
                 return "READ-bad", None, self._frame("READ", code, b"\xff\xa1")
-            unit = ("blk", tuple(scs), tuple(n for _, n in blocks))
+            unit = ("blk", self.cur, tuple(scs), tuple(n for _, n in blocks))
             if not 1 <= nb <= 12:
                 return "READ-count", unit, self._frame("READ", code, b"\xff\xa2")
             out = b""
